@@ -117,6 +117,45 @@ pre_reset(void *epv, void *arg)
 	}
 }
 
+/* an application policy handler that looks at what the documented accessors say about the ClientHello
+   (br_ssl_server_get_client_suites / _hashes / _curves) and then lets the configured handler decide */
+typedef struct {
+	const br_ssl_server_policy_class *vtable;
+	const br_ssl_server_policy_class **inner;
+	int calls;
+	size_t ns;
+	uint16_t suites[100];
+	uint32_t hashes, curves;
+} obs_policy;
+static obs_policy OBS;
+
+static int
+obs_choose(const br_ssl_server_policy_class **pctx, const br_ssl_server_context *cc, br_ssl_server_choices *choices)
+{
+	obs_policy *o = (obs_policy *)(void *)pctx;
+	size_t n, i;
+	const br_suite_translated *st = br_ssl_server_get_client_suites(cc, &n);
+	o->calls ++;
+	o->ns = n > 100 ? 100 : n;
+	for (i = 0; i < o->ns; i ++) o->suites[i] = st[i][0];
+	o->hashes = br_ssl_server_get_client_hashes(cc);
+	o->curves = br_ssl_server_get_client_curves(cc);
+	return (*o->inner)->choose(o->inner, cc, choices);
+}
+static uint32_t
+obs_do_keyx(const br_ssl_server_policy_class **pctx, unsigned char *data, size_t *len)
+{
+	obs_policy *o = (obs_policy *)(void *)pctx;
+	return (*o->inner)->do_keyx(o->inner, data, len);
+}
+static size_t
+obs_do_sign(const br_ssl_server_policy_class **pctx, unsigned algo_id, unsigned char *data, size_t hv_len, size_t len)
+{
+	obs_policy *o = (obs_policy *)(void *)pctx;
+	return (*o->inner)->do_sign(o->inner, algo_id, data, hv_len, len);
+}
+static const br_ssl_server_policy_class obs_vtable = { sizeof(obs_policy), obs_choose, obs_do_keyx, obs_do_sign };
+
 static void
 side_to_cfg(side *sd, int role, tp_cfg *c, vf_rng *r)
 {
@@ -719,6 +758,13 @@ run_pair(long long seed, long idx, int kind, side *C, side *S, vf_rng *r)
 	p.c.tx_key = pm.m.key[0]; p.c.rx_key = pm.m.key[1];
 	p.s.tx_key = pm.m.key[1]; p.s.rx_key = pm.m.key[0];
 	hs = 0;
+	memset(&OBS, 0, sizeof OBS);
+	if (rs && (idx / NSLOTS) % 2 == 0 && p.s.sc->policy_vtable != NULL && p.s.sc->policy_vtable != &OBS.vtable) {
+		/* half of the cases: the server's policy handler is the application's (it consults the accessors, then delegates) */
+		OBS.vtable = &obs_vtable; OBS.inner = p.s.sc->policy_vtable;
+		br_ssl_server_set_policy(p.s.sc, &OBS.vtable);
+		vf_stat("cases_with_observing_policy", 1);
+	}
 	if (rc && rs) {
 		hs = tp_handshake(&p, 2000000);
 		rm_drain(&pm.m.rm, 0); rm_drain(&pm.m.rm, 1);
@@ -735,6 +781,12 @@ run_pair(long long seed, long idx, int kind, side *C, side *S, vf_rng *r)
 	js_side(LOG, "C", C, 0); fputc(',', LOG);
 	js_side(LOG, "S", S, 1); fputc(',', LOG);
 	js_wire(LOG, &pm.m.rm);
+	if (OBS.calls) {
+		size_t q;
+		fprintf(LOG, ",\"pol\":{\"calls\":%d,\"hashes\":%lu,\"curves\":%lu,\"suites\":[", OBS.calls, (unsigned long)OBS.hashes, (unsigned long)OBS.curves);
+		for (q = 0; q < OBS.ns; q ++) fprintf(LOG, "%s%u", q ? "," : "", OBS.suites[q]);
+		fputs("]}", LOG);
+	}
 	/* renegotiation capability is measured last: a successful call starts a new handshake */
 	{
 		ep_obs oc, os;
